@@ -51,7 +51,11 @@ type c16Vec struct {
 }
 
 func csBytes(f csForm, r *rand.Rand) (whole []byte, content []byte) {
-	content = make([]byte, f.N)
+	cn := f.N
+	if cn < 0 {
+		cn = 3 // a declared length nobody could send: the content behind it is short
+	}
+	content = make([]byte, cn)
 	for i := range content {
 		content[i] = byte(r.Intn(256))
 	}
@@ -79,6 +83,14 @@ func csBytes(f csForm, r *rand.Rand) (whole []byte, content []byte) {
 		b = append(b, 0x80|byte(f.NB))
 		full := make([]byte, f.NB)
 		n := f.N
+		switch f.N {
+		case -1:
+			n = 1<<63 - 1
+		case -2:
+			n = 1<<63 - 10
+		case -3:
+			n = 1 << 62
+		}
 		for i := f.NB - 1; i >= 0; i-- {
 			full[i] = byte(n)
 			n >>= 8
